@@ -2,14 +2,26 @@
 (* The pass iterator over every sequence of at most N token classes (plus the end-of-file token).               *)
 EXTENDS DirectiveTree
 
-CONSTANTS N, PASS_PRODUCT      \* PASS_PRODUCT: bug switch - a pass does not mark what it visited in nested branches
+CONSTANTS N, PASS_PRODUCT,     \* PASS_PRODUCT: bug switch - a pass does not mark what it visited in nested branches
+          LONG                 \* 0: every sequence of <= N classes; K > 0: the scaled families below up to K alternatives
 
 VARIABLES toks, phase, tree, passes, exhausted
 vars == <<toks, phase, tree, passes, exhausted>>
 
-Init == toks = <<>> /\ phase = "gen" /\ tree = <<>> /\ passes = <<>> /\ exhausted = FALSE
+\* Scaled families (no bound on the number of alternatives is part of the design: the iterator must go on until the
+\* tree is explored, however many passes that takes).
+Rep(s, k) == [i \in 1..(k * Len(s)) |-> s[((i - 1) % Len(s)) + 1]]
+Chain(k) == <<"p", "if", "p">> \o Rep(<<"el", "p">>, k) \o <<"en", "p">>            \* one section, k + 1 alternatives
+Ladder(k) == <<"p">> \o Rep(<<"if", "p", "el">>, k) \o <<"p">> \o Rep(<<"en">>, k)   \* else / if ladder, k deep
+Nest(k) == Rep(<<"if", "p">>, k) \o Rep(<<"el", "p", "en">>, k)                      \* nested in the first branch
+Side(k) == Rep(<<"if", "p", "el", "p", "en">>, k)                                     \* k sections side by side
+Open(k) == Rep(<<"if", "p", "el">>, k)                                                \* never closed
+Families == UNION {{Chain(k), Ladder(k), Nest(k), Side(k), Open(k)} : k \in 1..LONG}
 
-Extend == /\ phase = "gen" /\ Len(toks) < N
+Init == /\ toks \in (IF LONG = 0 THEN {<<>>} ELSE Families)
+        /\ phase = "gen" /\ tree = <<>> /\ passes = <<>> /\ exhausted = FALSE
+
+Extend == /\ phase = "gen" /\ LONG = 0 /\ Len(toks) < N
           /\ \E c \in {"p", "if", "el", "en"} : toks' = Append(toks, c)
           /\ UNCHANGED <<phase, tree, passes, exhausted>>
 
